@@ -19,7 +19,8 @@ LEVEL_TEXT = ("All measurement lists of length <=3 (quick: <=2; 3 on default.qub
               "density_matrix(1)} x shots in {None,7,(7,7),(3,7)} x broadcast in {None,1,3} x #tapes in {1,2} x 4 devices through qp.execute and QNode, "
               "and lists of length <=2 over {expval,var,probs(1),probs(2)} x interfaces {numpy,autograd,jax,jax-jit,torch} x diff methods x 1-2 trainable "
               "arguments of shape ()/(2,) for results and Jacobians (plus broadcast sizes 1 and 3 over a trainable angle with backprop and over a non-trainable "
-              "angle with parameter-shift), are compared with the structure function.")
+              "angle with parameter-shift), are compared with the structure function. Gradient-transform level: param_shift / finite_diff / spsa_grad / "
+              "hadamard_grad applied to a tape x 8 shot settings (incl. shot vectors with repeated entries) x 1-3 parameters x 8 measurement lists.")
 LEVEL_NOTE = ("Only nesting and shapes are compared (not dtypes/values). Documented device deviation encoded: qp.state() on default.mixed is the density "
               "matrix. For counts with broadcasting any sequence of B dictionaries is accepted (spec: non-tensorlike results may handle broadcasting "
               "differently). Jacobian structure is checked for the three autodiff entry points (jax.jacobian eager and jitted, torch functional jacobian, qp.jacobian), "
